@@ -80,7 +80,7 @@ PROPS["C14"] = dict(scen=[("core", "histories:SeqEclMask", True), ("core", "hist
 CLAIMS = {
  "C01": ("TLC model-checks the staged build machine (every option combination over a small input set, decode path against construction path) and validates Build events of the real crate: all 160 (version, level) cells x boundary lengths (capacity, capacity-1, smallest length needing the version, 0/1, half) x rotating modes and forced/automatic masks, every payload length 0..260 (0..1200 thorough) per mode, structured contents (long runs, 000/999 groups, pad look-alikes, repeated records, every digit triple and alphanumeric pair, user-like and periodic contents), inputs discovered by a coverage-guided fuzzer; each symbol is decoded by the ISO reference procedure written in TLA+ (format bits, unmasking, zig-zag read-out, de-interleaving, strict single-segment parse) and must give back the input.",
          "Payload bytes are sampled (seeded); configuration cells are enumerated and counted. The decoder is the specification's own (QRDecode.tla), independent of every table of the crate."),
- "C02": ("Block count, block sizes (short blocks first), interleaving, remainder bits and all syndromes are read off every built symbol of all 160 cells and compared with the geometry-derived layout and GF(256) generated from 0x11D; Corrupt events apply seeded error patterns of weight 1, t/2 and t = floor(ec/2) per block (burst and spread) and a Berlekamp-Massey/Chien/Forney decoder written in TLA+ must recover every block; byte payloads whose data blocks mirror each other up to a compensating difference (against digest-keyed shortcuts), and the birthday sweep described under C07; the crate's block-group table is judged cell by cell through the hook tier.",
+ "C02": ("Block count, block sizes (short blocks first), interleaving, remainder bits and all syndromes are read off every built symbol of all 160 cells and compared with the geometry-derived layout and GF(256) generated from 0x11D; Corrupt events apply seeded error patterns of weight 1, t/2 and t = floor(ec/2) per block (burst and spread) and a Berlekamp-Massey/Chien/Forney decoder written in TLA+ must recover every block; byte payloads whose data blocks mirror each other up to a compensating difference (against digest-keyed shortcuts), blocks shaped at the codeword level (the padding alternation exact or with one codeword changed, all zero, all 0xFF, copies, reversals and rotations of another block, in pairs), and the birthday sweep described under C07; the crate's block-group table is judged cell by cell through the hook tier.",
          "Error patterns are sampled; the algebraic guarantee rests on the syndrome check, which is made on every block of every event. ISO Table 9 (EC codewords per block, number of blocks) is typed into the specification and cross-checked by MC_Lemmas against the geometric module count."),
  "C03": ("Every module of every built symbol that lies in a function pattern is compared with the closed-form geometry of QRLayout.tla (finder rings, separators, timing parity, Annex E alignment centres in closed form, dark module); the tail of the 177x177 backing array must stay default; blank symbols of all 40 versions and every mask sweep alone are judged through the hook tier.",
          "Exhaustive over (version, coordinate); payload, level and mask are sampled per cell (payload-independence is observed, not proved)."),
@@ -108,7 +108,7 @@ CLAIMS = {
          "Real OS schedules are sampled; the exhaustive interleaving is of the model, whose thread-locality is what per-thread validation binds to the code."),
  "C15": ("Type labels of every module of every built symbol (and of the blank symbols, and before/after each mask sweep) against the region map of QRLayout.tla; the number of data labels against 8 x total codewords + remainder bits.",
          "Modules where an alignment pattern lies on a timing line may carry either label (ISO assigns them to both)."),
- "C16": ("All 40 sizes x 2 / 6 symbols plus hand-made matrices: line count, line width, alphabet, one-module light border, and every module decoded back in place from the (top, bottom) reading; what QRCode::print writes to the process' standard output (captured through a redirected descriptor) must be that rendering and a line terminator; MC: decode o render = id on all 512 3x3 matrices for the model's renderer.",
+ "C16": ("All 40 sizes x 2 / 6 symbols plus hand-made matrices: line count, line width, alphabet, one-module light border, and every module decoded back in place from the (top, bottom) reading; what QRCode::print writes to the process' standard output - captured through a redirected file descriptor and through a pseudo-terminal - must be that rendering and a line terminator; MC: decode o render = id on all 512 3x3 matrices for the model's renderer.",
          "The upper half of the first line is outside the picture and unconstrained."),
  "C17": ("wasm.rs compiled on the host through a guarded #[path] module. TLC exports every setter program over a 36-call alphabet (well-formed and malformed values) up to length 2 / 3; each is replayed under catch_unwind; the export must be empty exactly when the specification says the content cannot be encoded, equal to the native output (string equality when no malformed value is involved, field by field modulo havoc registers otherwise), and the native settings used for comparison must be the model's NativeOf(W_After(program)).",
          "Needs the hook tier (exit 2 without it). A malformed value leaves its register unspecified in the model."),
